@@ -208,11 +208,23 @@ template <class T> struct Runner {
                 if (m.unspecified) { done = false; break; }
                 if (m.v.size() == m.cap && !m.ow) { done = false; break; }   // documented precondition
                 bool willOverwrite = m.v.size() == m.cap;
-                int v = nextVal++;
                 bool back = (o.k == PUSH_BACK || o.k == EMPLACE_BACK);
+                // aliasing argument (c bit 3): the value pushed is a reference to an element OF THIS BUFFER - half of the time the very
+                // element an overwriting push is about to discard (front for a push at the back, back for a push at the front)
+                bool alias = (o.c & 8) && !m.v.empty();
+                size_t ai = 0;
+                if (alias) { ai = ((unsigned)o.b & 1) ? (back ? 0 : m.v.size() - 1) : (size_t)(((unsigned)o.b >> 1) % m.v.size()); label(willOverwrite ? "push_aliasing_element_overwrite" : "push_aliasing_element"); }
+                int v = alias ? m.v[ai] : nextVal++;
                 call(sl, [&](auto &b) {
                     T *ref;
-                    if (o.k == PUSH_BACK) { T e = Elem<T>::make(v); ref = &b.push_back(e); }
+                    if (alias) {
+                        const T &src = b[ai];
+                        if (o.k == PUSH_BACK) ref = &b.push_back(src);
+                        else if (o.k == PUSH_FRONT) ref = &b.push_front(src);
+                        else if (o.k == EMPLACE_BACK) ref = &b.emplace_back(src);
+                        else ref = &b.emplace_front(src);
+                    }
+                    else if (o.k == PUSH_BACK) { T e = Elem<T>::make(v); ref = &b.push_back(e); }
                     else if (o.k == PUSH_FRONT) { T e = Elem<T>::make(v); ref = &b.push_front(e); }
                     else if (o.k == EMPLACE_BACK) { if constexpr (std::is_same_v<T, Pod>) ref = &b.emplace_back(Elem<T>::make(v)); else ref = &b.emplace_back(v); }
                     else { if constexpr (std::is_same_v<T, Pod>) ref = &b.emplace_front(Elem<T>::make(v)); else ref = &b.emplace_front(v); }
